@@ -1,6 +1,7 @@
 //! Verification hooks, compiled only with `--cfg maybenot_verif`. Observation
 //! only: a thread-local log of every event the simulator handed to a framework
-//! instance and of every action it got back and acted on, in processing order.
+//! instance, of every action it got back and acted on, and of every action
+//! timer and internal timer it let expire, in processing order.
 
 use maybenot::{TriggerAction, TriggerEvent};
 use std::cell::{Cell, RefCell};
@@ -20,6 +21,19 @@ pub enum Rec {
         is_client: bool,
         time: Instant,
         action: TriggerAction,
+    },
+    /// the action timer of `action`'s machine expired at `time` and the
+    /// simulator executed the scheduled action.
+    ActionFired {
+        is_client: bool,
+        time: Instant,
+        action: TriggerAction,
+    },
+    /// the internal timer of `machine` expired at `time`.
+    TimerFired {
+        is_client: bool,
+        time: Instant,
+        machine: usize,
     },
 }
 
